@@ -31,10 +31,13 @@ def ops_str(ops):
 
 
 def map_str(m):
+    if isinstance(m, NotImplementedError):
+        # the base-class get_deformation RETURNS (does not raise) a NotImplementedError instance
+        return 'ERR notimplemented'
     return ''.join(m[p] for p in 'XYZ')
 
 
-def sizes_for(ctx, cls, supported, salt):
+def sizes_for(ctx, cls, supported, salt, extra_sizes=()):
     """(size, tag) list: every cuboid size with all L_i <= 3 (4 in the thorough tier) that the
     family supports, a few random larger ones, and a few sizes outside the family (the model
     transcribes the code for every size, e.g. the dict overwrite at a period of 1)."""
@@ -58,6 +61,11 @@ def sizes_for(ctx, cls, supported, salt):
         seen.add(L)
         out.append((L, 'family-larger'))
         n_big -= 1
+    for L in extra_sizes:
+        L = tuple(L)
+        if L not in seen and supported(L):
+            seen.add(L)
+            out.append((L, 'family-larger'))
     return out + outside
 
 
@@ -113,7 +121,7 @@ def rank_post(klass):
     return post
 
 
-def streams_for(ctx, cls, supported, salt):
+def streams_for(ctx, cls, supported, salt, extra_sizes=()):
     import panqec.codes as C
     klass = getattr(C, cls)
     rng = ctx.np_rng(salt + 1)
@@ -123,7 +131,7 @@ def streams_for(ctx, cls, supported, salt):
     s_attr = Stream(f'lat-{cls}-axis-type')
     s_def = Stream(f'lat-{cls}-get_deformation')
     s_rank = Stream(f'lat-{cls}-rank-family', post=rank_post(klass))
-    for size, tag in sizes_for(ctx, cls, supported, salt):
+    for size, tag in sizes_for(ctx, cls, supported, salt, extra_sizes):
         pre = f'lat {cls} ' + ' '.join(map(str, size))
         label = f'{cls}{tuple(size)}'
         try:
